@@ -1,4 +1,5 @@
 pub mod ber;
+pub mod frame;
 use crate::rng::Rng;
 
 pub fn group_salt(group: &str) -> u64 { group.bytes().fold(0xcbf29ce484222325u64, |h, b| (h ^ b as u64).wrapping_mul(0x100000001b3)) }
@@ -6,6 +7,8 @@ pub fn group_salt(group: &str) -> u64 { group.bytes().fold(0xcbf29ce484222325u64
 pub fn gen(group: &str, rng: &mut Rng, n: usize, out: &mut Vec<String>) {
     match group {
         "ber" => ber::gen(rng, n, out),
+        "frame" => frame::gen_frame(rng, n, out),
+        "hostile" => frame::gen_hostile(rng, n, out),
         _ => panic!("unknown group {}", group),
     }
 }
@@ -13,6 +16,7 @@ pub fn gen(group: &str, rng: &mut Rng, n: usize, out: &mut Vec<String>) {
 pub fn run(lane: &str, args: &[&str]) -> (String, Option<String>) {
     match lane {
         "enc" | "parse" | "int" | "bool" => ber::run(lane, args),
+        "frame" => frame::run(lane, args),
         _ => ("UNKNOWN-LANE".into(), None),
     }
 }
